@@ -42,6 +42,9 @@ struct Directive {
     before_stmt: Vec<(String, String)>,
     /// (generated accumulator name, type): adds the annotation Rust's inference cannot supply through invariants
     let_types: Vec<(String, String)>,
+    /// N14 effect threading: (kind, pattern, world method) with kind in call|method|drop-param, and the world parameter
+    effects: Vec<(String, String, String)>,
+    effect_param: Option<(String, String)>,
     from_fn: BTreeMap<usize, usize>,
     expect_loops: Option<usize>,
     attrs: String,
@@ -100,6 +103,8 @@ fn parse_template(text: &str) -> Vec<(bool, String, Option<Directive>)> {
                     }
                     "ret" => d.ret = Some(args[0].to_string()),
                     "let-type" => d.let_types.push((args[0].to_string(), args[1..].join(" "))),
+                    "effect-param" => d.effect_param = Some((args[0].to_string(), args[1..].join(" "))),
+                    "effect" => d.effects.push((args[0].to_string(), args[1].to_string(), args.get(2).unwrap_or(&"").to_string())),
                     "loops" => d.expect_loops = Some(args[0].parse().unwrap()),
                     "from_fn" => {
                         d.from_fn.insert(args[0].parse().unwrap(), args[1].parse().unwrap());
@@ -659,6 +664,7 @@ fn main() {
                 if let Some(r) = &d.rename {
                     f.sig.ident = syn::Ident::new(r, f.sig.ident.span());
                 }
+                if let Some((w, ty)) = &d.effect_param { norm::thread_effects(&mut f.sig, &mut f.block, w, ty, &d.effects, &mut n); }
                 if emit_canaries { canary = canary_for(&f.sig, &d.header, None); }
                 n.run_fn(&mut f.sig, &mut f.block, d.ret.is_some());
                 let mut items: Vec<syn::Item> = std::mem::take(&mut n.hoisted);
